@@ -345,6 +345,11 @@ def build_ops(ctx, exe):
             ops.append("cvcuimg " + hx(x))
             ops += ["cvcimg " + hx(y) for y in mutants(body, rng, 3) + leaf_variants(body) + leaf_sizes(body)]
             ops += ["cvcuimg " + hx(y) for y in mutants(x, rng, 3) + leaf_variants(x) + leaf_sizes(x)]
+            # the verifying paths (signature length from the key length): own key (0) and external keys
+            for kl in (0, 48, 64, 96, 128):
+                ops.append("cvckimg %s %d" % (hx(x), kl))
+                ops += ["cvckimg %s %d" % (hx(y), kl) for y in leaf_sizes(x, (0, 33, 34, 35, 48, 49, 72, 73, 96, 97, 128, 129, 192, 300, 600))]
+            ops += ["cvckimg %s %d" % (hx(y), rng.choice((0, 48, 64, 96, 128))) for y in mutants(x, rng, 3) + leaf_variants(x)]
     # CSR (no encoder in the library: bounds + well-formedness outside the opaque fields)
     ops.append("csrdec " + hx(CSR))
     ops += ["csrdec " + hx(y) for y in mutants(CSR, rng)]
@@ -380,7 +385,9 @@ def judge(op, out):
         return [], ["sanitizer/abort: " + out[:400]]
     if "mismatch" in out:
         return [], ["probe call and real call disagree: " + out]
-    if (out.startswith("err") or out in ("invalid", "bad-op") or out.startswith("fmt-ok")) and k not in ("cvcimg", "cvcuimg"):
+    if "field-overrun" in out:
+        return [], ["a failed decode left octets beyond the used part of a 64-octet field of bign_params: " + out]
+    if (out.startswith("err") or out in ("invalid", "bad-op") or out.startswith("fmt-ok")) and k not in ("cvcimg", "cvcuimg", "cvckimg"):
         return [], []
     try:
         if k in ("pkdec", "shdec"):
@@ -432,7 +439,7 @@ def judge(op, out):
                 fails.append("decoded authority/holder do not fit char[13] with 8..12 characters (lengths %d, %d)" % (len(unhx(o[0])), len(unhx(o[1]))))
             if len(unhx(o[6])) not in (48, 64, 96, 128):
                 fails.append("decoded public key length %d" % len(unhx(o[6])))
-        elif k in ("cvcimg", "cvcuimg"):
+        elif k in ("cvcimg", "cvcuimg", "cvckimg"):
             A, H, PK, FR, UN, EID, ESG, SG = (unhx(o[i]) for i in (1, 2, 3, 5, 6, 7, 8, 9))
             pkl, sgl = int(o[4]), int(o[10])
             for nm, v in (("authority", A), ("holder", H)):
@@ -518,7 +525,7 @@ def run(ctx):
             elif g != exp:
                 bad.append((op, "%s fails: `%s` -> `%s`, accepted `%s`" % (what, s_op[:200], g[:300], exp[:300])))
     # correspondence with the Lean models of the bpki codecs (Bee2V/C08/Model3.lean)
-    modelled = ("pkdec", "shdec", "eddec", "csrdec", "pkenc", "shenc", "edenc", "bpdec", "bpenc", "cvcimg", "cvcuimg")
+    modelled = ("pkdec", "shdec", "eddec", "csrdec", "pkenc", "shenc", "edenc", "bpdec", "bpenc", "cvcimg", "cvcuimg", "cvckimg")
     mops = [(o, r) for o, r in list(zip(enc_ops, enc_out)) + list(zip(ops, res)) if o.split(" ")[0] in modelled]
     # the list-based Lean driver is quadratic in the input length: of the inputs with a 3-octet DER length
     # (>= 65536 octets) only a few go through the model (all of them go through the implementation-side oracle)
